@@ -407,7 +407,10 @@ fn number_template() -> impl Strategy<Value = String> {
         Just("18446744073709551616".to_string()),
         Just("0".to_string()),
         Just("00".to_string()),
-        Just("007".to_string())
+        Just("007".to_string()),
+        // zero-padded literals of any length still denote small integers
+        ("0{1,30}", "[0-9]{1,19}").prop_map(|(z, d)| format!("{z}{d}")),
+        ("0{15,40}", "[1-9]?").prop_map(|(z, d)| format!("{z}{d}"))
     ];
     let frac = prop_oneof![Just("".to_string()), Just(".".to_string()), "\\.[0-9]{1,18}"];
     let exp = prop_oneof![Just("".to_string()), "[eE][-+]?[0-9]{1,3}", Just("e".to_string()), Just("e+".to_string())];
